@@ -158,6 +158,15 @@ pub fn run(args: &Args) {
                                 (*c.get_col_num(), *c.get_row_num(), *c.get_is_lock_col(), *c.get_is_lock_row(), c.get_coordinate())
                             });
                             cx.obs("coord.struct", &exp, st == Ok((col, row, lc, lr, exp.clone())), || format!("Coordinate({}) -> {:?}", exp, st));
+                            // coordinates given as text to the worksheet API (the &str -> CellCoordinates conversion); sampled
+                            if (col as u64 * 31 + row as u64) % 997 == 0 {
+                                let via = guard(|| {
+                                    let mut book = umya_spreadsheet::new_file();
+                                    let c = book.get_sheet_mut(&0).unwrap().get_cell_mut(exp.as_str());
+                                    (*c.get_coordinate().get_col_num(), *c.get_coordinate().get_row_num())
+                                });
+                                cx.obs("coord.text-to-cell", &exp, via == Ok((col, row)), || format!("get_cell_mut({:?}) -> {:?}", exp, via));
+                            }
                             // the other way a coordinate is printed: to_string()
                             let disp = guard(|| {
                                 let mut c = Coordinate::default();
